@@ -293,3 +293,26 @@ Proof.
   - split; [split; [discriminate|intros H; exfalso; apply H; reflexivity]|discriminate].
   - split; [split; [intros _; discriminate|reflexivity]|]. intros _. exists p, m. reflexivity.
 Qed.
+
+(* ------------------------------------------------------------------ *)
+(* rep0_ctx_send starts with nni_msg_header_clear: the header the application
+   leaves on the reply plays no part -- the wire header is the saved backtrace *)
+Lemma rep_send_clears_app_header bt h b : rep_send bt (mkPmsg h b) = mkPmsg bt b.
+Proof. reflexivity. Qed.
+Lemma rep_send_header_independent pf s c a nb h h' b :
+  rep_step pf s (PSend c a nb (mkPmsg h b)) = rep_step pf s (PSend c a nb (mkPmsg h' b)).
+Proof. unfold rep_step. destruct (rp_get s (ckey c)); reflexivity. Qed.
+Lemma rep_reply_wire pf s k c a nb h b s' outs p x :
+  rep_ctx_send pf s k c a nb (mkPmsg h b) = (s', outs) -> In (TranSend p x) outs ->
+  p = rc_pipe c /\ pm_hdr x = rc_bt c /\ pm_body x = b /\ wire_of x = rc_bt c ++ b.
+Proof.
+  intros H Hin. destruct (rep_send_to_origin _ _ _ _ _ _ _ _ _ _ _ H Hin) as [H1 [H2 _]].
+  subst x. split; [exact H1|]. repeat split.
+Qed.
+(* the queued path: what waits in ctx->saio is already backtrace ++ body *)
+Lemma rep_reply_wire_queued pf s k c a h b s' :
+  rep_ctx_send pf s k c a false (mkPmsg h b) = (s', []) ->
+  exists c', rp_get s' k = Some c' /\ rc_saio c' = Some (a, mkPmsg (rc_bt c) b).
+Proof.
+  intros H. destruct (rep_send_queued _ _ _ _ _ _ _ H) as [_ [c' [H1 [H2 _]]]]. exists c'. split; [exact H1|exact H2].
+Qed.
